@@ -65,13 +65,19 @@ fn main() {
                 "segments" => segments::run(&ops, &mut out, &mut orc),
                 "recv" => tx::run(&ops, true, &mut out, &mut orc),
                 "send" => tx::run(&ops, false, &mut out, &mut orc),
-                "link" => link::run(&ops, &mut out, &mut orc),
+                "link" => {
+                    let mut rs = util::Stats::default();
+                    link::run(&ops, &mut out, &mut orc, &mut rs);
+                    fs::write(format!("{outdir}/run_stats.json"), rs.to_json()).unwrap();
+                }
                 "daemon" => {
                     // the handler calls actually made (with the run-time facts routing depends on) are
                     // what the model driver replays
                     let mut ev = BufWriter::new(fs::File::create(format!("{outdir}/events.ops")).unwrap());
-                    daemon::run(&ops, &mut out, &mut orc, &mut ev);
+                    let mut rs = util::Stats::default();
+                    daemon::run(&ops, &mut out, &mut orc, &mut ev, &mut rs);
                     ev.flush().unwrap();
+                    fs::write(format!("{outdir}/run_stats.json"), rs.to_json()).unwrap();
                 }
                 "checksum" => checksum::run(&ops, &mut out, &mut orc),
                 "path" => path::run(&ops, &mut out, &mut orc),
